@@ -389,6 +389,55 @@ class StopCheck(BaseException):
     """raised to end the exploration early: enough failing inputs, or the time limit of the tier was reached"""
 
 
+class CallTimeout(Exception):
+    """one call into the library has been running for longer than the per-call limit (a hang is a failing input)"""
+
+
+class Watchdog:
+    """SIGALRM-driven: ends the exploration at the tier's time limit (StopCheck) and interrupts a single library call that
+    runs for more than `call_limit` seconds (CallTimeout, raised inside the call so that the oracle wrapper around it records
+    the input).  One library call = the outermost stack frame whose code lives under REPO/pytrs."""
+
+    def __init__(self, total_limit, call_limit, period=3.0):
+        self.deadline = time.time() + total_limit
+        self.call_limit = call_limit
+        self.period = period
+        self.cur = None          # (frame object, first seen)
+        self.root = os.path.join(REPO, 'pytrs')
+        self.fired = []
+
+    def start(self):
+        import signal
+        signal.signal(signal.SIGALRM, self.tick)
+        signal.setitimer(signal.ITIMER_REAL, self.period, self.period)
+
+    def stop(self):
+        import signal
+        signal.setitimer(signal.ITIMER_REAL, 0)
+
+    def tick(self, _sig, frame):
+        now = time.time()
+        if now > self.deadline:
+            raise StopCheck()
+        lib = None
+        f = frame
+        while f is not None:
+            if f.f_code.co_filename.startswith(self.root):
+                lib = f
+            f = f.f_back
+        if lib is None:
+            self.cur = None
+            return
+        if self.cur is not None and self.cur[0] is lib:
+            if now - self.cur[1] > self.call_limit:
+                self.cur = None
+                what = f'{lib.f_code.co_name} ({os.path.relpath(lib.f_code.co_filename, REPO)}:{lib.f_lineno})'
+                self.fired.append(what)
+                raise CallTimeout(f'library call {what} still running after {self.call_limit} s')
+        else:
+            self.cur = (lib, now)
+
+
 class Report:
     """Collects what a check run did and turns it into exit code, VIOLATION lines and evidence."""
 
